@@ -1,502 +1,19 @@
-import MgpuModel.Util
-/-! # C15 — reorder buffer (`amd/timing/rob`), tick-exact
+import MgpuModel.C15_Core
+import MgpuModel.C15_Sys
+import MgpuModel.C15_Cu
+/-! # C15 — line-protocol dispatcher
 
-Hand-written transcription (tie H) of `ReorderBuffer.Tick`:
-`processControlMsg` (discard / restart / `panic("never")`), then — unless flushing —
-`bottomUp`×n, `parseBottom`×n, `topDown`×n (while flushing: `dropUndeliveredMsgs`), over
-* the transaction list (`transactions`) and the lookup table
-  (`toBottomReqIDToTransactionTable`, here the list of its keys in insertion order; the
-  element a key points to is the transaction with that bottom id),
-* six bounded Akita port buffers (Top/Bottom/Control, incoming and outgoing): `Send` fails
-  when the outgoing buffer is full, `Deliver` fails when the incoming buffer is full,
-* ghost logs (`fwd`, `delivered`, `discarded`, `discardedBot`, `answered`, `dropped`) which
-  no transition reads.
-
-Message ids are fresh `Nat`s from two counters (`nextTop` for the requester's ids, `nextBot`
-for the ids the ROB generates; the real code draws both from one global generator).
--/
+`c15 cu …` lines go to the composition of the reorder buffer with the compute unit's flush /
+restart (`MgpuModel/C15_Cu.lean`), every other line to the ROB scenarios / `fields` cases
+(`handleRob`, `MgpuModel/C15_Core.lean`, which holds the tick-exact ROB model). -/
 namespace C15
 open Util
-
-/-- payload of a lower-level response: `DataReadyRsp.Data` or `WriteDoneRsp` -/
-inductive Rsp where
-  | data (bytes : List Nat)
-  | done
-deriving Repr, DecidableEq
-
-/-- a request as the requester sent it (`mem.ReadReq` / `mem.WriteReq`) -/
-structure Req where
-  id : Nat
-  write : Bool
-  addr : Nat
-  size : Nat            -- AccessByteSize (reads)
-  data : List Nat       -- writes
-  mask : List Bool      -- writes (DirtyMask)
-  pid : Nat
-  cwc : Bool            -- CanWaitForCoalesce
-  src : Nat             -- requester port; 0 = empty name (malformed)
-deriving Repr, DecidableEq
-
-/-- a request as the ROB forwards it to the lower level -/
-structure BReq where
-  id : Nat
-  write : Bool
-  addr : Nat
-  size : Nat
-  data : List Nat
-  mask : List Bool
-  pid : Nat
-  cwc : Bool
-deriving Repr, DecidableEq
-
-/-- `duplicateReadReq` / `duplicateWriteReq`: address, size, PID for reads; address, PID,
-    data, dirty mask for writes; `CanWaitForCoalesce` and `Info` are *not* copied. -/
-def dupReq (n : Nat) (r : Req) : BReq :=
-  if r.write then
-    { id := n, write := true, addr := r.addr, size := r.data.length, data := r.data,
-      mask := r.mask, pid := r.pid, cwc := false }
-  else
-    { id := n, write := false, addr := r.addr, size := r.size, data := [],
-      mask := [], pid := r.pid, cwc := false }
-
-structure Tx where
-  req : Req
-  botId : Nat
-  rsp : Option Rsp
-deriving Repr, DecidableEq
-
-/-- response pushed into the Top port: RspTo, Dst, payload -/
-structure TRsp where
-  rspTo : Nat
-  dst : Nat
-  payload : Rsp
-deriving Repr, DecidableEq
-
-structure Ctl where
-  discard : Bool
-  restart : Bool
-deriving Repr, DecidableEq
-
-inductive Fault where
-  | never          -- panic("never"): control message with neither flag
-  | dstNotGiven    -- Port.Send: "dst is not given" (empty requester / empty BottomUnit)
-deriving Repr, DecidableEq
-
-structure Cfg where
-  cap : Nat          -- bufferSize
-  width : Nat        -- numReqPerCycle
-  topInCap : Nat
-  topOutCap : Nat
-  botInCap : Nat
-  botOutCap : Nat
-  ctlInCap : Nat
-  ctlOutCap : Nat
-  bottomUnit : Bool  -- BottomUnit set?
-deriving Repr
-
-structure St where
-  txs : List Tx := []
-  table : List Nat := []
-  flushing : Bool := false
-  fault : Option Fault := none
-  nextBot : Nat := 0
-  nextTop : Nat := 0
-  topIn : List Req := []
-  botIn : List (Nat × Rsp) := []
-  ctlIn : List Ctl := []
-  topOut : List TRsp := []
-  botOut : List BReq := []
-  ctlOut : Nat := 0
-  -- ghost logs (never read by a transition)
-  fwd : List (Req × BReq) := []          -- accepted requests with the duplicate sent down
-  delivered : List TRsp := []            -- responses pushed into the Top port, in order
-  discarded : List Nat := []             -- requester ids of transactions thrown away
-  discardedBot : List Nat := []          -- their bottom ids
-  answered : List (Nat × Rsp) := []      -- lower-level responses consumed (RspTo, payload)
-  dropped : List Nat := []               -- requests dropped unaccepted from the Top port by restart
-deriving Repr
-
-/-- requester ids in acceptance order -/
-def St.accepted (s : St) : List Nat := s.fwd.map (·.1.id)
-
-/-- `bottomUp`: retire the head transaction if its response arrived and the Top port takes it -/
-def bottomUp (c : Cfg) (s : St) : St × Bool :=
-  if s.fault.isSome then (s, false) else
-  match s.txs with
-  | [] => (s, false)
-  | t :: rest =>
-    match t.rsp with
-    | none => (s, false)
-    | some p =>
-      if t.req.src = 0 then ({ s with fault := some .dstNotGiven }, false)
-      else if s.topOut.length < c.topOutCap then
-        ({ s with txs := rest, table := s.table.erase t.botId,
-                  topOut := s.topOut ++ [⟨t.req.id, t.req.src, p⟩],
-                  delivered := s.delivered ++ [⟨t.req.id, t.req.src, p⟩] }, true)
-      else (s, false)
-
-/-- `trans.rspFromBottom = rsp` on the element the table points to -/
-def setRsp (b : Nat) (p : Rsp) : List Tx → List Tx
-  | [] => []
-  | t :: ts => if t.botId = b then { t with rsp := some p } :: ts else t :: setRsp b p ts
-
-/-- `parseBottom`: always consumes the head of the Bottom port; unknown ids are dropped -/
-def parseBottom (s : St) : St × Bool :=
-  if s.fault.isSome then (s, false) else
-  match s.botIn with
-  | [] => (s, false)
-  | (b, p) :: rest =>
-    if b ∈ s.table then
-      ({ s with botIn := rest, txs := setRsp b p s.txs, answered := s.answered ++ [(b, p)] }, true)
-    else ({ s with botIn := rest }, true)
-
-/-- `topDown`: accept the head request of the Top port if there is room and the Bottom port
-    takes the duplicate (the duplicate's id is consumed even when `Send` fails) -/
-def topDown (c : Cfg) (s : St) : St × Bool :=
-  if s.fault.isSome then (s, false) else
-  match s.topIn with
-  | [] => (s, false)
-  | r :: rest =>
-    if s.txs.length ≥ c.cap then (s, false)
-    else if !c.bottomUnit then ({ s with nextBot := s.nextBot + 1, fault := some .dstNotGiven }, false)
-    else if s.botOut.length ≥ c.botOutCap then ({ s with nextBot := s.nextBot + 1 }, false)
-    else
-      ({ s with topIn := rest, txs := s.txs ++ [⟨r, s.nextBot, none⟩],
-                table := s.table ++ [s.nextBot], nextBot := s.nextBot + 1,
-                botOut := s.botOut ++ [dupReq s.nextBot r],
-                fwd := s.fwd ++ [(r, dupReq s.nextBot r)] }, true)
-
-/-- run `f` `n` times, or-ing the progress flags -/
-def iterP (f : St → St × Bool) : Nat → St × Bool → St × Bool
-  | 0, sb => sb
-  | n + 1, sb => iterP f n ((f sb.1).1, sb.2 || (f sb.1).2)
-
-def runPipeline (c : Cfg) (s : St) : St × Bool :=
-  iterP (topDown c) c.width (iterP parseBottom c.width (iterP (bottomUp c) c.width (s, false)))
-
-/-- `processControlMsg` with `discardTransactions` / `restart` -/
-def processCtl (c : Cfg) (s : St) : St × Bool :=
-  match s.ctlIn with
-  | [] => (s, false)
-  | m :: rest =>
-    if m.discard then
-      if s.ctlOut ≥ c.ctlOutCap then (s, false)
-      else
-        ({ s with ctlOut := s.ctlOut + 1, flushing := true, table := [], txs := [], ctlIn := rest,
-                  discarded := s.discarded ++ s.txs.map (·.req.id),
-                  discardedBot := s.discardedBot ++ s.txs.map (·.botId) }, true)
-    else if m.restart then
-      if s.ctlOut ≥ c.ctlOutCap then (s, false)
-      else
-        ({ s with ctlOut := s.ctlOut + 1, flushing := false, table := [], txs := [], ctlIn := rest,
-                  topIn := [], botIn := [],
-                  discarded := s.discarded ++ s.txs.map (·.req.id),
-                  discardedBot := s.discardedBot ++ s.txs.map (·.botId),
-                  dropped := s.dropped ++ s.topIn.map (·.id) }, true)
-    else ({ s with fault := some .never }, false)
-
-/-- `dropUndeliveredMsgs`: while the ROB is flushing, whatever still waits in the outgoing buffers
-    of the Bottom and Top ports (requests and responses of discarded transactions) is removed -/
-def dropOut (s : St) : St × Bool :=
-  ({ s with topOut := [], botOut := [] }, !s.botOut.isEmpty || !s.topOut.isEmpty)
-
-/-- `ReorderBuffer.Tick` -/
-def tick (c : Cfg) (s : St) : St × Bool :=
-  if s.fault.isSome then (s, false) else
-  let r := processCtl c s
-  if r.1.fault.isSome then (r.1, false)
-  else if r.1.flushing then
-    let d := dropOut r.1
-    (d.1, r.2 || d.2)
-  else
-    let q := runPipeline c r.1
-    (q.1, r.2 || q.2)
-
-/-- `ReorderBuffer.Tick` before repair 7c2f5a70: a flushing ROB left its outgoing buffers alone, so a
-    request of a discarded transaction could still be delivered (and served) after the restart of
-    the unit below -/
-def tickOld (c : Cfg) (s : St) : St × Bool :=
-  if s.fault.isSome then (s, false) else
-  let r := processCtl c s
-  if r.1.fault.isSome then (r.1, false)
-  else if r.1.flushing then r
-  else
-    let q := runPipeline c r.1
-    (q.1, r.2 || q.2)
-
-/-- what the requester hands over: a request without its id -/
-structure ReqIn where
-  write : Bool
-  addr : Nat
-  size : Nat
-  data : List Nat
-  mask : List Bool
-  pid : Nat
-  cwc : Bool
-  src : Nat
-deriving Repr
-
-def ReqIn.toReq (q : ReqIn) (id : Nat) : Req :=
-  { id := id, write := q.write, addr := q.addr, size := q.size, data := q.data, mask := q.mask,
-    pid := q.pid, cwc := q.cwc, src := q.src }
-
-/-- The environment's moves. Everything the ROB cannot control is an op: which requests
-    arrive and when, which lower-level responses arrive (any id, any order, duplicates, ids
-    never issued), when outgoing buffers are drained (back-pressure = not draining), when
-    flush / restart control messages arrive. -/
-inductive Op where
-  | tick
-  | top (q : ReqIn)
-  | bot (rspTo : Nat) (p : Rsp)
-  | ctl (m : Ctl)
-  | drainTop
-  | drainBot
-  | drainCtl
-deriving Repr
-
-def step (c : Cfg) (s : St) : Op → St
-  | .tick => (tick c s).1
-  | .top q =>
-    if s.topIn.length < c.topInCap then
-      { s with topIn := s.topIn ++ [q.toReq s.nextTop], nextTop := s.nextTop + 1 }
-    else s
-  | .bot b p => if s.botIn.length < c.botInCap then { s with botIn := s.botIn ++ [(b, p)] } else s
-  | .ctl m => if s.ctlIn.length < c.ctlInCap then { s with ctlIn := s.ctlIn ++ [m] } else s
-  | .drainTop => { s with topOut := s.topOut.drop 1 }
-  | .drainBot => { s with botOut := s.botOut.drop 1 }
-  | .drainCtl => { s with ctlOut := s.ctlOut - 1 }
-
-def run (c : Cfg) (ops : List Op) : St := ops.foldl (step c) {}
-
-/-! ## Line-protocol driver: scenario ops are translated to `Op`s and executed by `step` -/
-
-structure Env where
-  s : St := {}
-  outstanding : List BReq := []  -- bottom requests drained and not yet answered
-  drained : Nat := 0             -- bottom requests drained so far (k-th is written `#k`)
-  out : Array String := #[]
-  stopped : Bool := false
-
-def showBits (m : List Bool) : String :=
-  if m.isEmpty then "-" else String.ofList (m.map fun b => if b then '1' else '0')
-
-def showData (d : List Nat) : String := if d.isEmpty then "-" else bytesHex d
-
-def b01 (b : Bool) : String := if b then "1" else "0"
-
-def showBReq (k : Nat) (b : BReq) : String :=
-  if b.write then s!"w(#{k},a={b.addr},d={showData b.data},m={showBits b.mask},p={b.pid},c={b01 b.cwc})"
-  else s!"r(#{k},a={b.addr},s={b.size},p={b.pid},c={b01 b.cwc})"
-
-def showTRsp (t : TRsp) : String :=
-  match t.payload with
-  | .data d => s!"d({t.rspTo},{showData d})>{t.dst}"
-  | .done => s!"w({t.rspTo})>{t.dst}"
-
-def parseBits (s : String) : Option (List Bool) :=
-  if s = "-" then some [] else
-  s.toList.mapM fun ch => if ch = '1' then some true else if ch = '0' then some false else none
-
-def parseData (s : String) : Option (List Nat) := if s = "-" then some [] else hexBytes? s
-
-def parseRsp (s : String) : Option Rsp :=
-  if s = "w" then some .done
-  else if s.startsWith "d:" then (parseData ((s.drop 2).toString)).map .data
-  else none
-
-/-- `a<salt>`: the answer a memory would give (data of the requested size for a read,
-    write-done for a write); otherwise an explicit payload -/
-def payloadFor (b : BReq) (s : String) : Option Rsp :=
-  if s.startsWith "a" then
-    match ((s.drop 1).toString).toNat? with
-    | some salt =>
-      if b.write then some .done
-      else some (.data ((List.range b.size).map fun i => (b.addr + 7 * i + salt) % 256))
-    | none => none
-  else parseRsp s
-
-def faultName : Fault → String
-  | .never => "never"
-  | .dstNotGiven => "dst_not_given"
-
-def Env.emit (e : Env) (o : String) : Env := { e with out := e.out.push o }
-
-def drainBotN (c : Cfg) : Nat → Env → List String → Env × List String
-  | 0, e, acc => (e, acc)
-  | fuel + 1, e, acc =>
-    match e.s.botOut with
-    | [] => (e, acc)
-    | b :: _ =>
-      let e' := { e with s := step c e.s .drainBot, outstanding := e.outstanding ++ [b],
-                         drained := e.drained + 1 }
-      drainBotN c fuel e' (acc ++ [showBReq (e.drained + 1) b])
-
-def drainTopN (c : Cfg) : Nat → Env → List String → Env × List String
-  | 0, e, acc => (e, acc)
-  | fuel + 1, e, acc =>
-    match e.s.topOut with
-    | [] => (e, acc)
-    | r :: _ => drainTopN c fuel { e with s := step c e.s .drainTop } (acc ++ [showTRsp r])
-
-def answerAll (c : Cfg) (pl : String) : Nat → Env → Nat → Env × Nat
-  | 0, e, k => (e, k)
-  | fuel + 1, e, k =>
-    match e.outstanding with
-    | [] => (e, k)
-    | b :: rest =>
-      match payloadFor b pl with
-      | none => (e, k)
-      | some p =>
-        let s' := step c e.s (.bot b.id p)
-        if s'.botIn.length > e.s.botIn.length then
-          answerAll c pl fuel { e with s := s', outstanding := rest } (k + 1)
-        else (e, k)
-
-def envOp (c : Cfg) (e : Env) (t : List String) : Env :=
-  if e.stopped then e else
-  let deliver (e : Env) (op : Op) (before after : St → Nat) : Env :=
-    let s' := step c e.s op
-    ({ e with s := s' }).emit (if after s' > before e.s then "ok" else "full")
-  match t with
-  | ["t"] =>
-    let r := tick c e.s
-    let e := { e with s := r.1 }
-    match r.1.fault with
-    | some f => { (e.emit ("fault:" ++ faultName f)) with stopped := true }
-    | none => e.emit s!"t{b01 r.2}:{r.1.txs.length},{r.1.table.length},{b01 r.1.flushing}"
-  | ["R", src, pid, addr, size, cwc] =>
-    match src.toNat?, pid.toNat?, addr.toNat?, size.toNat? with
-    | some src, some pid, some addr, some size =>
-      deliver e (.top { write := false, addr := addr, size := size, data := [], mask := [], pid := pid,
-                        cwc := cwc = "1", src := src }) (·.topIn.length) (·.topIn.length)
-    | _, _, _, _ => e.emit "bad"
-  | ["W", src, pid, addr, data, mask, cwc] =>
-    match src.toNat?, pid.toNat?, addr.toNat?, parseData data, parseBits mask with
-    | some src, some pid, some addr, some data, some mask =>
-      deliver e (.top { write := true, addr := addr, size := 0, data := data, mask := mask, pid := pid,
-                        cwc := cwc = "1", src := src }) (·.topIn.length) (·.topIn.length)
-    | _, _, _, _, _ => e.emit "bad"
-  | ["db", k] =>
-    let k := k.toNat?.getD 0
-    let (e, strs) := drainBotN c k e []
-    e.emit ("b[" ++ joinWith " " strs ++ "]")
-  | ["dt", k] =>
-    let k := k.toNat?.getD 0
-    let (e, strs) := drainTopN c k e []
-    e.emit ("T[" ++ joinWith " " strs ++ "]")
-  | ["dc"] =>
-    if e.s.ctlOut = 0 then e.emit "c[]"
-    else ({ e with s := step c e.s .drainCtl }).emit "c[done]"
-  | ["r", j, p] | ["rk", j, p] =>
-    match j.toNat? with
-    | some j =>
-      if e.outstanding.isEmpty then e.emit "none" else
-      let j := j % e.outstanding.length
-      match e.outstanding[j]? with
-      | none => e.emit "none"
-      | some b =>
-        match payloadFor b p with
-        | none => e.emit "bad"
-        | some p =>
-          let s' := step c e.s (.bot b.id p)
-          if s'.botIn.length > e.s.botIn.length then
-            let keep := t.head? = some "rk"
-            ({ e with s := s', outstanding := if keep then e.outstanding else e.outstanding.eraseIdx j }).emit "ok"
-          else e.emit "full"
-    | none => e.emit "bad"
-  | ["ra", salt] =>
-    let (e, k) := answerAll c ("a" ++ salt) e.outstanding.length e 0
-    e.emit s!"ok{k}"
-  | ["po"] => ({ e with outstanding := [] }).emit "ok"
-  | ["rb", p] =>
-    match parseRsp p with
-    | some p => deliver e (.bot 1000000000 p) (·.botIn.length) (·.botIn.length)
-    | none => e.emit "bad"
-  | ["F"] => deliver e (.ctl ⟨true, false⟩) (·.ctlIn.length) (·.ctlIn.length)
-  | ["S"] => deliver e (.ctl ⟨false, true⟩) (·.ctlIn.length) (·.ctlIn.length)
-  | ["FS"] => deliver e (.ctl ⟨true, true⟩) (·.ctlIn.length) (·.ctlIn.length)
-  | ["N"] => deliver e (.ctl ⟨false, false⟩) (·.ctlIn.length) (·.ctlIn.length)
-  | _ => e.emit "bad"
-
-def parseCfg (t : List String) : Option Cfg := do
-  let cap ← kvNat? t "cap"
-  let width ← kvNat? t "width"
-  let pb ← kv? t "pb"
-  let (ti, to, bi, bo) ←
-    if pb = "def" then some (2 * width, 2 * width, 2 * width, 2 * width)
-    else match natList? pb with
-      | some [a, b, c, d] => some (a, b, c, d)
-      | _ => none
-  let cb := (kv? t "cb").getD "def"
-  let (ci, co) ←
-    if cb = "def" then some (1, 1)
-    else match natList? cb with
-      | some [a, b] => some (a, b)
-      | _ => none
-  let bu := (kvNat? t "bottom").getD 1
-  pure { cap := cap, width := width, topInCap := ti, topOutCap := to, botInCap := bi, botOutCap := bo,
-         ctlInCap := ci, ctlOutCap := co, bottomUnit := bu ≠ 0 }
-
-/-! ## Fields the ROB never reads (`c15 fields ; <req> ; <req'>`)
-
-`mem.ReadReq` / `mem.WriteReq` also carry `Info` and the requester's `MsgMeta.TrafficBytes`;
-`duplicateReadReq` / `duplicateWriteReq` build the forwarded message with the akita builders
-from address, size / data, mask and PID only, so `Info` is nil, `CanWaitForCoalesce` is false
-and `TrafficBytes` is recomputed (12 + number of data bytes). -/
-
-structure ReqX where
-  req : Req
-  info : Nat          -- `Info`: 0 = nil
-  trafficBytes : Nat  -- as set by the requester
-deriving Repr
-
-structure BReqX where
-  b : BReq
-  info : Nat
-  trafficBytes : Nat
-deriving Repr, DecidableEq
-
-def dupReqX (n : Nat) (x : ReqX) : BReqX :=
-  { b := dupReq n x.req, info := 0, trafficBytes := 12 + (dupReq n x.req).data.length }
-
-def parseReqX (t : List String) : Option ReqX :=
-  match t with
-  | [k, src, pid, addr, size, data, mask, cwc, info, tb] =>
-    match src.toNat?, pid.toNat?, addr.toNat?, size.toNat?, parseData data, parseBits mask,
-          info.toNat?, tb.toNat? with
-    | some src, some pid, some addr, some size, some data, some mask, some info, some tb =>
-      if k = "R" then
-        some ⟨{ id := 0, write := false, addr := addr, size := size, data := [], mask := [], pid := pid,
-                cwc := cwc = "1", src := src }, info, tb⟩
-      else if k = "W" then
-        some ⟨{ id := 0, write := true, addr := addr, size := 0, data := data, mask := mask, pid := pid,
-                cwc := cwc = "1", src := src }, info, tb⟩
-      else none
-    | _, _, _, _, _, _, _, _ => none
-  | _ => none
-
-/-- are two requests forwarded as the same message (up to the fresh id), and what is forwarded
-    for the first one -/
-def handleFields (segs : List String) : String :=
-  match segs with
-  | [a, b] =>
-    match parseReqX (words a), parseReqX (words b) with
-    | some x, some y =>
-      let bx := dupReqX 1 x
-      (if bx = dupReqX 1 y then "same " else "diff ") ++ showBReq 1 bx.b ++
-        s!" i={bx.info} tb={bx.trafficBytes}"
-    | _, _ => "bad"
-  | _ => "bad"
 
 def handle (line : String) : String :=
   match splitTrim line ";" with
   | [] => "bad"
   | first :: ops =>
-    if (words first).filter (· ≠ "c15") = ["fields"] then handleFields ops else
-    match parseCfg (words first) with
-    | none => "bad-cfg"
-    | some c =>
-      let e := ops.foldl (fun e o => envOp c e (words o)) ({} : Env)
-      joinWith " " e.out.toList
+    let ws := (words first).filter (· ≠ "c15")
+    if ws.head? = some "cu" then Cu.handle ws ops else handleRob line
 
 end C15
